@@ -244,6 +244,7 @@ func (s *Subscription) setResource() {
 // If the resource is already ready, the callback will directly be called.
 func (s *Subscription) OnReady(cb func()) {
 	if s.IsReady() {
+		verifNote("rdyNow", "cid", s.c.CID(), "rid", s.rid, "sp", s, "state", int(s.state))
 		cb()
 		return
 	}
@@ -259,6 +260,7 @@ func (s *Subscription) OnReady(cb func()) {
 // the callback will directly be queued onto the connections worker goroutine.
 func (s *Subscription) onLoaded(rcb *readyCallback) {
 	// Add itself to refMap
+	verifNote("rdyOn", "cid", s.c.CID(), "rid", s.rid, "sp", s, "rcb", rcb, "first", len(rcb.refMap) == 0, "loading", rcb.loading+1, "wait", s.state < stateLoaded, "state", int(s.state))
 	rcb.refMap[s.rid] = true
 	rcb.loading++
 
@@ -289,6 +291,7 @@ func (s *Subscription) ReleaseRPCResources() {
 		s.err != nil {
 		return
 	}
+	verifNote("subSent", "cid", s.c.CID(), "rid", s.rid, "sp", s, "state", int(s.state))
 	s.state = stateSent
 	for _, sc := range s.refs {
 		sc.sub.ReleaseRPCResources()
@@ -464,6 +467,7 @@ func (s *Subscription) subscribeRef(v codec.Value) bool {
 		for _, ref := range s.refs {
 			s.c.Unsubscribe(ref.sub, false, false, 1, true)
 		}
+		verifNote("subRefsClear", "cid", s.c.CID(), "rid", s.rid, "sp", s)
 		s.refs = nil
 		s.err = err
 		s.doneLoading()
@@ -487,11 +491,13 @@ func (s *Subscription) collectRefs(rcb *readyCallback) {
 	}
 
 	rcb.loading--
+	verifNote("rdyCollect", "cid", s.c.CID(), "rid", s.rid, "sp", s, "rcb", rcb, "loading", rcb.loading)
 	s.testReady(rcb)
 }
 
 func (s *Subscription) testReady(rcb *readyCallback) {
 	if rcb.loading == 0 {
+		verifNote("rdyFire", "cid", s.c.CID(), "rid", s.rid, "sp", s, "rcb", rcb)
 		rcb.cb()
 	}
 }
@@ -506,6 +512,7 @@ func containsString(path []string, rid string) bool {
 }
 
 func (s *Subscription) unsubscribeRefs(sent bool) {
+	verifNote("subRefsClear", "cid", s.c.CID(), "rid", s.rid, "sp", s)
 	for _, ref := range s.refs {
 		// A reference that was just marked unsent no longer counts its sent parents
 		s.c.Unsubscribe(ref.sub, false, sent && ref.sub.indirectsent > 0, 1, false)
@@ -533,6 +540,7 @@ func (s *Subscription) addReference(rid string) (*Subscription, error) {
 
 		ref = &reference{sub: sub, count: 1}
 		refs[rid] = ref
+		verifNote("subRef", "cid", s.c.CID(), "rid", s.rid, "sp", s, "csp", sub, "crid", rid)
 	} else {
 		ref.count++
 	}
@@ -546,6 +554,7 @@ func (s *Subscription) removeReference(rid string) {
 	ref := s.refs[rid]
 	ref.count--
 	if ref.count == 0 {
+		verifNote("subUnref", "cid", s.c.CID(), "rid", s.rid, "sp", s, "csp", ref.sub)
 		delete(s.refs, rid)
 		s.c.Unsubscribe(ref.sub, false, s.IsSent(), 1, true)
 	}
@@ -663,6 +672,7 @@ func (s *Subscription) processCollectionEvent(event *rescache.ResourceEvent) {
 
 	case "delete":
 		s.state = stateDeleted
+		verifNote("subDeleted", "cid", s.c.CID(), "rid", s.rid, "sp", s)
 		s.c.Send(rpc.NewEvent(s.rid, event.Event, event.Payload))
 		s.unsubscribeDirect(reserr.ErrDeleted)
 	default:
@@ -757,6 +767,7 @@ func (s *Subscription) processModelEvent(event *rescache.ResourceEvent) {
 		}
 	case "delete":
 		s.state = stateDeleted
+		verifNote("subDeleted", "cid", s.c.CID(), "rid", s.rid, "sp", s)
 		s.c.Send(rpc.NewEvent(s.rid, event.Event, event.Payload))
 		s.unsubscribeDirect(reserr.ErrDeleted)
 	default:
@@ -833,7 +844,7 @@ func (s *Subscription) Dispose() {
 // a subscription has indirect references, but has reached 0 indirectsent
 // references.
 func (s *Subscription) Unsend() {
-	verifNote("unsend", "cid", s.c.CID(), "rid", s.rid)
+	verifNote("unsend", "cid", s.c.CID(), "rid", s.rid, "sp", s)
 	s.state = stateReady
 	s.indirectsent = 0
 
@@ -848,6 +859,7 @@ func (s *Subscription) Unsend() {
 // doneLoading will decrease all loading counters for
 // each readyCallback, and test if they reach 0.
 func (s *Subscription) doneLoading() {
+	verifNote("rdyDone", "cid", s.c.CID(), "rid", s.rid, "sp", s, "waiting", len(s.readyCallbacks))
 	s.state = stateReady
 	rcbs := s.readyCallbacks
 	s.readyCallbacks = nil
